@@ -11,7 +11,7 @@ from typing import Dict, List, Optional, Set, Tuple
 from gxstat.callgraph import get_callgraph
 from gxstat.flowutil import (always_raises, enclosing_try, guards_of, handler_catches, handler_reraises, terminates)
 from gxstat.registry import EnumRef, Unfolded, get_registry
-from gxstat.srcmodel import AnalysisError, FuncInfo, calls_in, dotted_name, norm, parent, walk_no_nested
+from gxstat.srcmodel import clone, AnalysisError, FuncInfo, calls_in, dotted_name, norm, parent, walk_no_nested
 
 P = 'ParamToModify'
 
@@ -168,9 +168,9 @@ def check_reader_arm(ctx, fn: FuncInfo, clsname: str, kind: str) -> None:
             def visit_Name(self, node):
                 v = local_defs.get(node.id)
                 if v is not None and isinstance(node.ctx, ast.Load):
-                    return Sub().visit(copy.deepcopy(v))
+                    return Sub().visit(clone(v))
                 return node
-        return ast.fix_missing_locations(Sub().visit(copy.deepcopy(test)))
+        return ast.fix_missing_locations(Sub().visit(clone(test)))
 
     def is_range_test(test: ast.AST) -> bool:
         names = {norm(n) for n in ast.walk(test)}
